@@ -540,6 +540,46 @@ pub fn roots(tier: Tier) -> Vec<State> {
 }
 
 
+/// Closed curves whose tolerance is exactly zero (closedness and merging decided by exact equality), built by the
+/// constructor's closing option or with the first point repeated: they are closed, and the seam behaves like any
+/// other place (requests are kept away from vertices, so nothing here depends on a tolerance band).
+fn judge_zero_tol(item: &(Vec<usize>, bool), l: &mut Local) {
+    let lat = gen::lattice2(3);
+    let (seq, repeat_first) = item;
+    let mut pts: Vec<Point2> = seq.iter().map(|i| gen::p2(lat[*i], 1.0)).collect();
+    if pts.len() < 3 || pts[0] == pts[pts.len() - 1] {
+        return;
+    }
+    if *repeat_first {
+        pts.push(pts[0]);
+    }
+    let c = match Curve2::from_points(&pts, 0.0, !*repeat_first) {
+        Ok(c) => c,
+        Err(_) => return,
+    };
+    let args: Vec<f64> = std::iter::once(if *repeat_first { 1.0 } else { 0.0 }).chain(seq.iter().map(|i| *i as f64)).collect();
+    let mk = || { let args = args.clone(); json!({"state": {"pts": [[0.0, 0.0]], "tol": 0.0}, "action": "zero_tol", "args": args}) };
+    l.eval();
+    l.bucket("closed curve with a tolerance of exactly zero");
+    let big_l = c.length();
+    let per: f64 = (0..pts.len()).map(|i| d2(&pts[i], &pts[(i + 1) % pts.len()])).sum::<f64>() - if *repeat_first { 0.0 } else { 0.0 };
+    let expect_l = if *repeat_first { per - 0.0 } else { per };
+    let closed_ok = c.is_closed() && (big_l - expect_l).abs() <= 1e-12 * (1.0 + expect_l) && c.reversed().is_closed();
+    l.check("a curve closed with a tolerance of exactly zero is closed, and so is its reverse", "", closed_ok, mk, || format!("{:?} repeated first point {}: closed {} length {} (expected {})", seq, repeat_first, c.is_closed(), big_l, expect_l));
+    if !c.is_closed() {
+        return;
+    }
+    // through the seam, split and control, at positions well inside edges
+    let (a, b) = (0.83 * big_l, 0.21 * big_l);
+    let through = guarded(|| c.between_lengths(a, b)).ok().flatten();
+    let want = big_l - a + b;
+    l.check("between_lengths returns", "zero tolerance", through.as_ref().map(|p| (p.length() - want).abs() <= 1e-9 * (1.0 + big_l)).unwrap_or(false), mk, || format!("{:?}: through the seam from {} to {}: {:?} (expected length {})", seq, a, b, through.as_ref().map(|p| p.length()), want));
+    let split = guarded(|| c.split_closed_at_lengths(b, a).map_err(|e| e.to_string()));
+    l.check("split_closed yields two pieces", "zero tolerance", matches!(&split, Ok(Ok((x, y))) if (x.length() + y.length() - big_l).abs() <= 1e-9 * (1.0 + big_l)), mk, || format!("{:?}: {:?}", seq, split.map(|r| r.map(|(x, y)| (x.length(), y.length())))));
+    let ctl = guarded(|| c.between_lengths_by_control(b, a, 0.95 * big_l)).ok().flatten();
+    l.check("by_control yields the piece containing the control", "zero tolerance", ctl.as_ref().map(|p| (p.length() - want).abs() <= 1e-9 * (1.0 + big_l)).unwrap_or(false), mk, || format!("{:?}: control outside [{}, {}]: {:?}", seq, b, a, ctl.as_ref().map(|p| p.length())));
+}
+
 /// The same curve and the same requests in another length unit (microns, tens of kilometres): portions, splits
 /// and trims must be the unit-1 results multiplied by the unit. Requests are taken away from vertices and from
 /// the tolerance boundaries (where a comparison may legitimately fall the other way after rounding).
@@ -763,7 +803,7 @@ pub fn run(tier: Tier) -> i32 {
     let depth = 3;
     let max_states = tier.pick(6_000_000, 30_000_000);
     cx.bounds = json!({"root_seq_len": tier.pick(3, 4), "depth": depth, "max_states": max_states, "tols": [1e-6, 0.05]});
-    cx.require(&["closed state", "open state", "non-initial state", "forward", "through the seam", "end exactly on a vertex", "reversed on open", "out of range", "shorter than tolerance", "control inside", "control through the seam", "split open", "split closed", "trim", "reversal", "no piece short enough", "first candidate piece", "second candidate piece", "beyond a station on a closed outline", "beyond a station on an open outline, piece ahead", "beyond a station on an open outline, piece behind", "portion in another length unit"]);
+    cx.require(&["closed state", "open state", "non-initial state", "forward", "through the seam", "end exactly on a vertex", "reversed on open", "out of range", "shorter than tolerance", "control inside", "control through the seam", "split open", "split closed", "trim", "reversal", "no piece short enough", "first candidate piece", "second candidate piece", "beyond a station on a closed outline", "beyond a station on an open outline, piece ahead", "beyond a station on an open outline, piece behind", "portion in another length unit", "closed curve with a tolerance of exactly zero"]);
     cx.assume("well-posed = in range, not reversed on an open curve, travelled length and |l1-l0| both >= tol; requests within 1e-6*tol of the tolerance boundary, and wrap requests whose raw difference is below tol, are gray");
     cx.assume("pieces are compared with the reference piece as arc-length point functions at 17 abscissae within 4*tol (the curve constructor merges vertices within tol at either end); pieces with an edge shorter than 4*tol are judged but not expanded");
     let (l, states, _emitted, reached, capped) = bfs_par(roots(tier), |s| s.key(), expand, depth, max_states);
@@ -799,6 +839,14 @@ pub fn run(tier: Tier) -> i32 {
     }
     let lu = sweep(&un, judge_units);
     cx.absorb(lu);
+    let mut zt: Vec<(Vec<usize>, bool)> = Vec::new();
+    for sq in gen::seqs(lat.len(), 3, 4) {
+        for rf in [false, true] {
+            zt.push((sq.clone(), rf));
+        }
+    }
+    let lz = sweep(&zt, judge_zero_tol);
+    cx.absorb(lz);
     let mut bey = Vec::new();
     for shape in 0..BEYOND_SHAPES.len() {
         for i in 0..16 {
@@ -817,6 +865,10 @@ pub fn run(tier: Tier) -> i32 {
 pub fn replay(case: &Val) -> Local {
     let c: Case = serde_json::from_value(case.clone()).expect("case");
     let mut l = Local::new();
+    if c.action == "zero_tol" {
+        judge_zero_tol(&(c.args[1..].iter().map(|x| *x as usize).collect(), c.args[0] != 0.0), &mut l);
+        return l;
+    }
     if c.action == "units" {
         judge_units(&(c.args[1..].iter().map(|x| *x as usize).collect(), c.args[0] != 0.0), &mut l);
         return l;
